@@ -608,6 +608,25 @@ struct FnDriver : DriverBase<FnDriver<Cap, Align>> {
 // ================================================================================================ reference-like wrappers
 // function_ref, reference_wrapper, bind_front, not_fn, invoke: they refer to (or own a copy of) one of three stateful
 // targets; every call must reach the right instance exactly once.
+// a three-valued truth type: operator! keeps "unknown" unknown; converts to bool implicitly
+struct Tri {
+    int state; // 0 no, 1 yes, 2 unknown
+
+    friend auto operator!(Tri t) -> Tri { return Tri{t.state == 2 ? 2 : 1 - t.state}; }
+
+    operator bool() const { return state == 1; } // NOLINT
+};
+
+template <typename X>
+auto tri_state(X const& x) -> int
+{
+    if constexpr (std::is_same_v<X, Tri>) {
+        return x.state;
+    } else {
+        return static_cast<bool>(x) ? 1 : 0;
+    }
+}
+
 struct RefTarget {
     int id;
     int count = 0;
@@ -891,6 +910,18 @@ struct RefDriver : DriverBase<RefDriver> {
                 bool got2 = false;
                 if (call(-1, false, false, [&] { got2 = etl::not_fn(&RefTarget::is_odd)(target[t], x); })) {
                     expect(got2 == !target[t].is_odd(x), "diff:not_fn:member", "not_fn over a member function pointer returned the wrong result");
+                }
+                // the result is whatever !f(args...) is - not necessarily bool: a three-valued result type with its own
+                // operator! comes back unchanged (std::not_fn returns decltype(!invoke(...)))
+                int triState   = -1;
+                bool triIsTri  = false;
+                if (call(-1, false, false, [&] {
+                        auto nt   = etl::not_fn([](int v) { return Tri{v % 3}; });
+                        auto r    = nt(x);
+                        triIsTri  = std::is_same_v<decltype(r), Tri>;
+                        triState  = tri_state(r);
+                    })) {
+                    expect(triIsTri && triState == tri_state(!Tri{x % 3}), "diff:not_fn:result-type", "not_fn converted the result of operator! (a three-valued type) instead of returning it");
                 }
             } else if (op == "invoke") {
                 int const form = static_cast<int>(st.k[0] % 10);
